@@ -65,15 +65,22 @@ ProtoRulesOk(proto) ==
 \* names: the harness marks each extension name as well-formed or not (character classes are
 \* a string-level matter TLC has no operators for); registration is decided here
 ExtRegistered(r, exts) == IsStd(r) \/ \E i \in 1..Len(exts) : exts[i].ns = r.ns.some
-NoDuplicates(proto) == \A i, j \in 1..Len(proto) :
-                          (i # j) => ~(proto[i].ns = proto[j].ns /\ proto[i].name = proto[j].name)
+\* (as a cardinality, not a double quantifier: prototypes with 10^4 records occur)
+NoDuplicates(proto) == Cardinality({<<proto[i].ns, proto[i].name>> : i \in 1..Len(proto)}) = Len(proto)
 RangesSane(proto) == \A i \in 1..Len(proto) : proto[i].k >= 2 => LeS64(proto[i].min.some, proto[i].max.some)
 SomeWidth(proto) == \E i \in 1..Len(proto) : Width(proto[i]) > 0
+\* at least one point fits into a data packet (65535 bytes less header, stream table, one partial byte per stream and the
+\* writer's safety margin of 500 bytes); PacketWriterSpec shows what happens otherwise
+RECURSIVE SumWidths(_, _, _)
+\* (by halving: prototypes with 10^4 records would otherwise recurse 10^4 deep)
+SumWidths(proto, lo, hi) == IF lo > hi THEN 0 ELSE IF lo = hi THEN Width(proto[lo])
+                            ELSE SumWidths(proto, lo, (lo + hi) \div 2) + SumWidths(proto, (lo + hi) \div 2 + 1, hi)
+FitsPacket(proto) == (65535 - (6 + 2 * Len(proto)) - Len(proto) - 500) * 8 >= SumWidths(proto, 1, Len(proto))
 
 \* "ok" must be accepted, "err" must be rejected, "any" is not settled by the documented rules
 ProtoVerdict(proto, exts, namesok) ==
     IF ~ProtoRulesOk(proto) \/ ~namesok \/ (\E i \in 1..Len(proto) : ~ExtRegistered(proto[i], exts)) THEN "err"
-    ELSE IF ~NoDuplicates(proto) \/ ~RangesSane(proto) \/ ~SomeWidth(proto) THEN "any"
+    ELSE IF ~NoDuplicates(proto) \/ ~RangesSane(proto) \/ ~SomeWidth(proto) \/ ~FitsPacket(proto) THEN "any"
     ELSE "ok"
 
 PointFits(proto, vals) ==
